@@ -234,7 +234,37 @@ func wrapClassRule(p *Prog, r *Report, rule string, o wrapOpts) int {
 						continue
 					}
 				}
-				f.SiteConsumed(r, rule, cons, fi, bs, flowOpts{Class: true, Tolerated: tolerated[strings.SplitN(k, "$", 2)[0]], Through: o.Through, Sinks: o.Sinks})
+				tol := tolerated[strings.SplitN(k, "$", 2)[0]]
+				// a helper that can only fail with tolerated sentinels (a lookup answering "not registered"): its
+				// error states are those sentinels, whatever test the caller applies (err == nil for "is registered")
+				if len(tol) > 0 {
+					only := true
+					any := false
+					for _, ck := range p.calleeKeys(fi.Pkg, c) {
+						h := p.Funcs[ck]
+						if h == nil || h.Pkg != fi.Pkg || h.Obj.Exported() {
+							only = false
+							continue
+						}
+						for s := range prod[ck] {
+							any = true
+							isTol := false
+							for _, t := range tol {
+								if t == "is:"+s {
+									isTol = true
+								}
+							}
+							if !isTol {
+								only = false
+							}
+						}
+					}
+					if only && any && bs.Kind == "assigned" {
+						r.Hold(rule, cons, p.pos(c), "the helper can only fail with a tolerated sentinel")
+						continue
+					}
+				}
+				f.SiteConsumed(r, rule, cons, fi, bs, flowOpts{Class: true, Tolerated: tol, Through: o.Through, Sinks: o.Sinks})
 			}
 		}
 	}
